@@ -4,12 +4,11 @@ use crate::support::*;
 use educe::Educe;
 use core::cmp::Ordering;
 #[derive(Educe)]
-#[repr(i64)]
-#[educe(Ord, PartialEq, PartialOrd, Eq)]
-pub enum T { None = 2, Unit }
+#[educe(Ord, PartialEq, Eq, PartialOrd)]
+pub struct T { other: A<0>, x: A<0>, #[educe(PartialOrd(rank = "+0", method = "m_cmp"))] r#type: A<0> }
 
-pub fn values() -> Vec<T> { vec![T::None, T::Unit] }
-pub fn show(x: &T) -> String { #[allow(unused_variables)] match x { T::None => format!("None()"), T::Unit => format!("Unit()") } }
-pub fn o_disc(x: &T) -> i128 { match x { T::None => 2, T::Unit => 3 } }
-pub fn o_cmp(a: &T, b: &T) -> Ordering { match (a, b) { (T::None, T::None) => {  Ordering::Equal }, (T::Unit, T::Unit) => {  Ordering::Equal }, _ => o_disc(a).cmp(&o_disc(b)) } }
+pub fn values() -> Vec<T> { vec![T { other: A(0), x: A(0), r#type: A(0) }, T { other: A(0), x: A(0), r#type: A(1) }, T { other: A(0), x: A(0), r#type: A(7) }, T { other: A(0), x: A(1), r#type: A(0) }, T { other: A(0), x: A(1), r#type: A(1) }, T { other: A(0), x: A(1), r#type: A(7) }, T { other: A(0), x: A(7), r#type: A(0) }, T { other: A(0), x: A(7), r#type: A(1) }, T { other: A(0), x: A(7), r#type: A(7) }, T { other: A(1), x: A(0), r#type: A(0) }, T { other: A(1), x: A(0), r#type: A(1) }, T { other: A(1), x: A(0), r#type: A(7) }, T { other: A(1), x: A(1), r#type: A(0) }, T { other: A(1), x: A(1), r#type: A(1) }, T { other: A(1), x: A(1), r#type: A(7) }, T { other: A(1), x: A(7), r#type: A(0) }, T { other: A(1), x: A(7), r#type: A(1) }, T { other: A(1), x: A(7), r#type: A(7) }, T { other: A(7), x: A(0), r#type: A(0) }, T { other: A(7), x: A(0), r#type: A(1) }, T { other: A(7), x: A(0), r#type: A(7) }, T { other: A(7), x: A(1), r#type: A(0) }, T { other: A(7), x: A(1), r#type: A(1) }, T { other: A(7), x: A(1), r#type: A(7) }, T { other: A(7), x: A(7), r#type: A(0) }, T { other: A(7), x: A(7), r#type: A(1) }, T { other: A(7), x: A(7), r#type: A(7) }] }
+pub fn show(x: &T) -> String { #[allow(unused_variables)] match x { T { other: p0, x: p1, r#type: p2 } => format!("T({},{},{})", sv(p0), sv(p1), sv(p2)) } }
+pub fn o_disc(x: &T) -> i128 { match x { T { other: _, x: _, r#type: _ } => 0 } }
+pub fn o_cmp(a: &T, b: &T) -> Ordering { match (a, b) { (T { other: a0, x: a1, r#type: a2 }, T { other: b0, x: b1, r#type: b2 }) => { let c = ::core::cmp::Ord::cmp(a0, b0); if c != Ordering::Equal { return c; } let c = ::core::cmp::Ord::cmp(a1, b1); if c != Ordering::Equal { return c; } let c = m_cmp(a2, b2); if c != Ordering::Equal { return c; } Ordering::Equal } } }
 pub fn run(out: &mut Out) { let vs = values(); for (i, a) in vs.iter().enumerate() { for (j, b) in vs.iter().enumerate() { let e = o_cmp(a, b); let g = ::core::cmp::Ord::cmp(a, b); out.check(g == e, "ord_24", "cmp", || format!("cmp({}, {}) = {:?} expected {:?}", show(a), show(b), g, e)); let g2 = ::core::cmp::PartialOrd::partial_cmp(a, b); out.check(g2 == Some(e), "ord_24", "partial_is_some_cmp", || format!("partial_cmp({}, {}) = {:?} expected Some({:?})", show(a), show(b), g2, e)); } } }
